@@ -133,7 +133,7 @@ def _race_summary(rep):
         if re.match(r"^(Read|Write|Previous read|Previous write|Atomic|Previous atomic)\b.* by ", line):
             head, frame = line.split(" by ")[0], None
         elif head and frame is None:
-            m = re.match(r"^\s+(github\.com/moorara/algo/\S+?)\(", line)
+            m = re.match(r"^\s+(github\.com/moorara/algo/.+?)\(\)\s*$", line)
             if m:
                 frame = m.group(1)
                 out.append("%s ... in %s" % (head, frame))
